@@ -23,11 +23,104 @@ from .splitter_ref import LEN, Ref, end, start
 QUICK_KINDS = ["{", "}", '"', ",", "=", "@x", "@comment", "@String ", "@preamble", "@X \t"]
 THOROUGH_KINDS = QUICK_KINDS + ["@COMMENT", "@string", "@PreambleX", "@", "@commentary"]
 
+# Names of the Splitter's private attributes / methods, discovered by role (configure()), so that a
+# consistent rename does not disturb the analysis.  The defaults are today's names.
 ATTR_PENDING = "_unaccepted_mark"
 ATTR_INDEX = "_current_char_index"
 ATTR_LINE = "_current_line"
 ATTR_ITER = "_markiter"
 ATTR_TEXT = "bibstr"
+ATTR_IMPL_START = "_implicit_comment_start"
+ATTR_IMPL_LINE = "_implicit_comment_start_line"
+M_NEXT_MARK = "_next_mark"
+M_END_IMPLICIT = "_end_implicit_comment"
+_CONFIGURED_FOR = None
+
+
+def _self_attr(node):
+    if isinstance(node, ast.Attribute) and isinstance(node.value, ast.Name) and node.value.id == "self":
+        return node.attr
+    return None
+
+
+def configure(program: Program):
+    """Discovers the role-bearing names of the Splitter from the source."""
+    global ATTR_PENDING, ATTR_INDEX, ATTR_LINE, ATTR_ITER, ATTR_TEXT, ATTR_IMPL_START, ATTR_IMPL_LINE, M_NEXT_MARK, M_END_IMPLICIT, _CONFIGURED_FOR
+    if _CONFIGURED_FOR is program:
+        return
+    cls = program.cls("splitter", "Splitter")
+    # iterator attribute: self.X = <...>.finditer(...)
+    it_attr = None
+    for f in cls.methods.values():
+        for n in own_nodes(f.node):
+            if isinstance(n, ast.Assign) and isinstance(n.value, ast.Call) and ast.unparse(n.value.func).endswith("finditer"):
+                for t in n.targets:
+                    if _self_attr(t):
+                        it_attr = _self_attr(t)
+    if it_attr is None:
+        raise AnalysisError("anchor vanished: no `self.<attr> = ...finditer(...)` in Splitter (the mark iterator)")
+    # the fetch method: the one that reads the iterator
+    readers = [f for f in cls.methods.values() if any(isinstance(n, ast.Attribute) and _self_attr(n) == it_attr and isinstance(n.ctx, ast.Load)
+                                                       for n in own_nodes(f.node))]
+    if len(readers) != 1:
+        # several readers: keep the conventional name if present (C04.R4 reports the extra readers)
+        readers = [f for f in readers if f.name == M_NEXT_MARK] or readers[:1]
+    if not readers:
+        raise AnalysisError("anchor vanished: no Splitter method reads the mark iterator")
+    nm = readers[0]
+    pend = idx = line = None
+    # the put-back slot: an attribute the scanners store a fetched mark into (self.X = <name>) and the fetch method reads
+    loaded = {_self_attr(n) for n in own_nodes(nm.node) if isinstance(n, ast.Attribute) and isinstance(n.ctx, ast.Load) and _self_attr(n)}
+    stored = {}
+    for f in cls.methods.values():
+        if f is nm or f.name == "__init__":
+            continue
+        for n in own_nodes(f.node):
+            if isinstance(n, ast.Assign) and isinstance(n.value, ast.Name):
+                for t in n.targets:
+                    if _self_attr(t) and _self_attr(t) in loaded:
+                        stored[_self_attr(t)] = stored.get(_self_attr(t), 0) + 1
+    if stored:
+        pend = max(stored, key=stored.get)
+    for n in own_nodes(nm.node):
+        if pend is None and isinstance(n, ast.Assign) and isinstance(n.value, ast.Constant) and n.value.value is None:
+            for t in n.targets:
+                if _self_attr(t):
+                    pend = _self_attr(t)
+        if isinstance(n, ast.Assign) and isinstance(n.value, ast.Call) and isinstance(n.value.func, ast.Attribute) and n.value.func.attr == "start":
+            for t in n.targets:
+                if _self_attr(t):
+                    idx = _self_attr(t)
+        if isinstance(n, ast.AugAssign) and isinstance(n.op, ast.Add) and _self_attr(n.target):
+            line = _self_attr(n.target)
+    init = cls.methods.get("__init__")
+    text = None
+    if init is not None:
+        params = {a.arg for a in init.node.args.args[1:]}
+        for n in own_nodes(init.node):
+            if isinstance(n, ast.Assign) and isinstance(n.value, (ast.JoinedStr, ast.BinOp)) and any(isinstance(x, ast.Name) and x.id in params for x in ast.walk(n.value)):
+                for t in n.targets:
+                    if _self_attr(t):
+                        text = _self_attr(t)
+    ei = [f for f in cls.methods.values() if any(isinstance(n, ast.Call) and ast.unparse(n.func).split(".")[-1] == "ImplicitComment" for n in own_nodes(f.node))]
+    ist = iln = None
+    if ei:
+        f = ei[0]
+        for n in own_nodes(f.node):
+            if isinstance(n, ast.Compare) and _self_attr(n.left) and any(isinstance(c, ast.Constant) and c.value is None for c in n.comparators):
+                ist = _self_attr(n.left)
+        for n in own_nodes(f.node):
+            if isinstance(n, ast.Attribute) and _self_attr(n) and _self_attr(n) not in (ist, text) and isinstance(n.ctx, ast.Load) \
+                    and _self_attr(n) not in cls.methods:
+                iln = _self_attr(n)
+    missing = [k for k, v in (("put-back slot", pend), ("position attribute", idx), ("line counter", line), ("text attribute", text),
+                              ("free-text extractor", ei), ("free-text start", ist), ("free-text line", iln)) if not v]
+    if missing:
+        raise AnalysisError(f"anchor vanished: cannot identify the Splitter's {', '.join(missing)}")
+    ATTR_ITER, ATTR_PENDING, ATTR_INDEX, ATTR_LINE, ATTR_TEXT = it_attr, pend, idx, line, text
+    ATTR_IMPL_START, ATTR_IMPL_LINE = ist, iln
+    M_NEXT_MARK, M_END_IMPLICIT = nm.name, ei[0].name
+    _CONFIGURED_FOR = program
 
 
 class Pruned(Exception):
@@ -393,7 +486,8 @@ class SplitExplorer:
         self.sample_paths: List[str] = []
         self.cls = program.cls("splitter", "Splitter")
         self.exc_mod = program.module("exceptions")
-        for a in ("split", "_next_mark", "_end_implicit_comment", "__init__"):
+        configure(program)
+        for a in ("split", M_NEXT_MARK, M_END_IMPLICIT, "__init__"):
             if a not in self.cls.methods:
                 raise AnalysisError(f"anchor vanished: Splitter.{a}")
         self.events_total = 0
@@ -485,10 +579,10 @@ class SplitExplorer:
             env = it.bind(fn.node, args, kwargs, fn.self_val, fn.module, "_end_implicit_comment")
             sp = fn.self_val
             endi = [v for k, v in env.items() if k != "self"][0]
-            st = sp.attrs.get("_implicit_comment_start")
+            st = sp.attrs.get(ATTR_IMPL_START)
             if st is None:
                 return None
-            line = sp.attrs.get("_implicit_comment_start_line")
+            line = sp.attrs.get(ATTR_IMPL_LINE)
             span = (run.norm(st), run.norm(endi))
             run.code_events.append(("implicit", {"span": span, "line_base": run.norm(line)}, node))
             if span[0] == span[1]:
@@ -502,7 +596,7 @@ class SplitExplorer:
             run.last_comment = obj
             return obj
 
-        return {"Splitter._next_mark": next_mark, "Splitter._end_implicit_comment": end_implicit}
+        return {f"Splitter.{M_NEXT_MARK}": next_mark, f"Splitter.{M_END_IMPLICIT}": end_implicit}
 
     def deliver_eof(self, it, sp, accept_eof, node):
         sp.attrs[ATTR_INDEX] = Off(("len",), 0)
